@@ -114,6 +114,16 @@ def main() -> int:
                     except Exception:  # noqa: BLE001
                         out.count("corpus_entries_unreadable")
             mod.run(out)
+            # thorough tier: further rounds of the same exploration with derived seeds (VERIF_ROUNDS, default 3 in the thorough tier, 1 in quick);
+            # everything accumulates in the same outcome, a violation ends the rounds
+            rounds = int(os.environ.get("VERIF_ROUNDS", "3" if a.tier == "thorough" else "1") or 1)
+            for k in range(1, rounds):
+                if out.violations or out.mismatches or time.time() - t0 > 1500:
+                    break
+                out.seed = seed * 7919 + 104729 * k
+                mod.run(out)
+                out.count("extra_rounds")
+            out.seed = seed
         # The tie between model and code is broken but the property's own oracle found nothing: search harder for a failing input on the
         # implementation (thorough budget, other seeds) before reporting `no-failing-input-found` (DESIGN §4 step 3).
         if out.mismatches and not out.violations and not a.replay and a.tier == "quick" and not os.environ.get("VERIF_NO_SEARCH"):
